@@ -251,7 +251,7 @@ func verifBody_C08_concurrent_salts() {
 		func() { sg.GetSalt(s2) },
 		func() { ok0 = sg.IsServerSalt(s0) },
 	)
-	verifAssert("C08.concurrent.recognised-while-others-are-issued", ok0)
+	verifAssert("C08.concurrent.recognised-while-others-are-issued|C06.concurrent.reflected-salt-recognised-under-load", ok0)
 	verifAssert("C08.concurrent.issued-salts-recognised", sg.IsServerSalt(s1) && sg.IsServerSalt(s2))
 	verifReach("C08.concurrent.done", true)
 }
